@@ -628,7 +628,8 @@ func ImportedC11(r *rand.Rand, n int) []*Case {
 
 var goKeywords = []string{"break", "case", "chan", "const", "continue", "default", "defer", "else", "fallthrough", "for",
 	"func", "go", "goto", "if", "import", "interface", "map", "package", "range", "return", "select", "struct", "switch", "type", "var"}
-var goPredeclared = []string{"len", "cap", "new", "make", "nil", "true", "false", "string", "int", "error", "any", "append"}
+var goPredeclared = []string{"len", "cap", "new", "make", "nil", "true", "false", "string", "int", "error", "any", "append",
+	"copy", "close", "delete", "panic", "print", "min", "max", "clear"}
 
 // weirdValue: override values of unusual shape. Since 60219e3 a helper is never named by a keyword or a
 // predeclared identifier, so every class may meet (plugin, type) combinations that need helpers
@@ -692,9 +693,9 @@ func WeirdC12(r *rand.Rand, n int) []*Case {
 	}
 	// (plugin, type) combinations without a helper named by a bare prefix / with such helpers
 	flat := map[string][]int{"equal": {0, 1}, "deepcopy": {0}, "sort": {1, 2}, "keys": {3}, "set": {1, 2}}
-	deep := map[string][]int{"compare": {0}, "hash": {0, 2}, "unique": {2}}
+	deep := map[string][]int{"compare": {0}, "hash": {0, 2}, "unique": {2}, "clone": {1, 0}}
 	flatNames := []string{"equal", "deepcopy", "sort", "keys", "set"}
-	deepNames := []string{"compare", "hash", "unique"}
+	deepNames := []string{"compare", "hash", "unique", "clone"}
 	vals := weirdValues()
 	swaps := [][2]string{{"equal", "compare"}, {"keys", "set"}, {"sort", "hash"}, {"deepcopy", "unique"}}
 	def := map[string]string{}
@@ -721,6 +722,11 @@ func WeirdC12(r *rand.Rand, n int) []*Case {
 				// F86: compare=strings: the helper for the int field next to strings.Compare
 				ov["compare"] = "strings"
 				used = []string{"compare"}
+			} else if g == 4 || g == 5 {
+				// clone asks deepcopy for a helper; deepcopy's bare prefix is a builtin FUNCTION: `func copy(dst, src []int) { copy(dst, src) }`
+				ov["clone"] = "clone"
+				ov["deepcopy"] = []string{"copy", "append"}[g-4]
+				used = []string{"clone"}
 			} else if g%8 == 7 {
 				// swapped defaults
 				sw := swaps[r.Intn(len(swaps))]
@@ -787,7 +793,7 @@ func WeirdC12(r *rand.Rand, n int) []*Case {
 				ts = deep[p]
 			}
 			ty := ts[r.Intn(len(ts))]
-			if g == 1 || g == 2 || g == 3 {
+			if g >= 1 && g <= 5 {
 				ty = ts[0]
 			}
 			pcs = append(pcs, pc{p, suffixes[r.Intn(len(suffixes))], ty})
@@ -1188,5 +1194,57 @@ func UntypedC11(r *rand.Rand) []*Case {
 		}
 	}
 	rec(nil)
+	return out
+}
+
+// TestFileC11: derive calls in an in-package _test.go file next to a call that waits a pass
+// (deriveSort(deriveKeys(m))): the test file's deriveEqual([]string) conflicts with a.go's deriveEqual(int); every
+// pass must see the test file, or the last derived.gen.go lacks the renamed function.
+func TestFileC11() []*Case {
+	typs := []TypeSpec{{Go: "int", Wire: "int"}, {Go: "[]string", Wire: "(sl string)"}}
+	wait := "package p\n\nfunc Names(m map[string]int) []string { return deriveSort(deriveKeys(m)) }\n"
+	test := "package p\n\nfunc sameNames(a, b []string) bool { return deriveEqual(a, b) }\n"
+	var out []*Case
+	for i, tf := range []string{"a_lib_test.go", "z_lib_test.go"} {
+		out = append(out, &Case{ID: fmt.Sprintf("tf%d", i), Stream: "pending", Types: typs, Plugins: Plugins("derive", nil),
+			Variants: AllVariants, NoModel: true, OtherFile: "z_other.go",
+			Files:      []FileSpec{{Name: "lib.go", Calls: []CallSpec{Call("equal", "deriveEqual", 0)}}},
+			ExtraCalls: []CallSpec{Call("equal", "deriveEqual", 1)},
+			Extra:      map[string]string{"p/names.go": wait, "p/" + tf: test}})
+	}
+	return out
+}
+
+// MethodsC11 (2c333b7): a declared struct type whose methods are all on the pointer, by value, next to its unnamed
+// twin: not served by each other's function. All sequences of <= 2 deriveEqual calls over 2 names.
+func MethodsC11(r *rand.Rand) []*Case {
+	decl := "type Key struct{ ID int }\n\nfunc (k *Key) Equal(o *Key) bool { return k.ID == o.ID }"
+	typs := []TypeSpec{
+		{Go: "Key", Wire: "(nmp 0 Key (st int) Equal)", Decl: decl},
+		{Go: "struct{ ID int }", Wire: "(st int)", Decl: decl},
+		{Go: "*Key", Wire: "(p (nmp 0 Key (st int) Equal))", Decl: decl},
+	}
+	return smallExhaustive(r, "methods", "me", typs, "equal", 2, []string{"deriveEqual", "deriveEqual_"}, 2)
+}
+
+// DotImportC12: package q dot-imports package p; both are generated by one invocation, p first, with the exported
+// global prefix Derive (and with the default one): the helper that contains asks equal for in q must keep clear of
+// p's exported DeriveEqual, which the dot import puts into q's file scope. The module must build.
+func DotImportC12() []*Case {
+	decl := "type T struct {\n\tName string\n\tTags []string\n}"
+	typs := []TypeSpec{{Go: "*T", Wire: "(p (nm 0 T (st)))", Decl: decl}}
+	var out []*Case
+	for _, pfx := range []string{"derive", "Derive"} {
+		q := "package q\n\nimport . \"t/p\"\n\ntype V struct{ X int }\n\ntype U struct {\n\tName string\n\tIn   *V\n}\n\n" +
+			"func Has(us []*U, u *U) bool { return " + pfx + "Contains(us, u) }\n\nfunc Same2(a, b *T) bool { return Wrap0(a, b) }\n"
+		c := &Case{ID: "dot-" + pfx, Stream: "c12", Types: typs, Plugins: Plugins(pfx, nil), GoderiveArgs: PrefixArgs(pfx, nil),
+			Variants: []Variant{{false, false}}, KeepDerived: true, NoModel: true, Group: "nD", Rename: "global:" + pfx,
+			Files: []FileSpec{{Name: "a.go", Calls: []CallSpec{Call("equal", pfx+"Equal", 0)}}},
+			Extra: map[string]string{"q/main.go": q}, ExtraPkgs: []string{"q"}, GoBuild: true, PreRunP: true}
+		if pfx == "derive" {
+			c.Rename = "default"
+		}
+		out = append(out, c)
+	}
 	return out
 }
